@@ -28,6 +28,15 @@ type c16BlockSpec struct {
 	Randao   phase0.BLSSignature
 	Graffiti [32]byte
 	ZeroFee  bool
+	// Number is the height of the execution block (0: 100); call k of a history is for a higher block
+	Number uint64
+}
+
+func (b c16BlockSpec) blockNumber() uint64 {
+	if b.Number == 0 {
+		return 100
+	}
+	return b.Number
 }
 
 func c16MustJSON(v interface{}) string {
@@ -72,7 +81,7 @@ func c16WdRoot() phase0.Root {
 func c16BellatrixPayload(b c16BlockSpec) (*bellatrix.ExecutionPayload, *bellatrix.ExecutionPayloadHeader) {
 	p := &bellatrix.ExecutionPayload{
 		ParentHash: phase0.Hash32{0x0a}, FeeRecipient: c16FeeRecipient(b), StateRoot: [32]byte{0x01}, ReceiptsRoot: [32]byte{0x02},
-		PrevRandao: [32]byte{0x03}, BlockNumber: 100, GasLimit: 30000000, GasUsed: 21000, Timestamp: 1700000000,
+		PrevRandao: [32]byte{0x03}, BlockNumber: b.blockNumber(), GasLimit: 30000000, GasUsed: 21000, Timestamp: 1700000000,
 		ExtraData: []byte{}, BaseFeePerGas: [32]byte{0x07}, BlockHash: phase0.Hash32{0xb1}, Transactions: []bellatrix.Transaction{},
 	}
 	h := &bellatrix.ExecutionPayloadHeader{
@@ -86,7 +95,7 @@ func c16BellatrixPayload(b c16BlockSpec) (*bellatrix.ExecutionPayload, *bellatri
 func c16CapellaPayload(b c16BlockSpec) (*capella.ExecutionPayload, *capella.ExecutionPayloadHeader) {
 	p := &capella.ExecutionPayload{
 		ParentHash: phase0.Hash32{0x0a}, FeeRecipient: c16FeeRecipient(b), StateRoot: [32]byte{0x01}, ReceiptsRoot: [32]byte{0x02},
-		PrevRandao: [32]byte{0x03}, BlockNumber: 100, GasLimit: 30000000, GasUsed: 21000, Timestamp: 1700000000,
+		PrevRandao: [32]byte{0x03}, BlockNumber: b.blockNumber(), GasLimit: 30000000, GasUsed: 21000, Timestamp: 1700000000,
 		ExtraData: []byte{}, BaseFeePerGas: [32]byte{0x07}, BlockHash: phase0.Hash32{0xb1}, Transactions: []bellatrix.Transaction{},
 		Withdrawals: []*capella.Withdrawal{},
 	}
@@ -102,7 +111,7 @@ func c16CapellaPayload(b c16BlockSpec) (*capella.ExecutionPayload, *capella.Exec
 func c16DenebPayload(b c16BlockSpec) (*deneb.ExecutionPayload, *deneb.ExecutionPayloadHeader) {
 	p := &deneb.ExecutionPayload{
 		ParentHash: phase0.Hash32{0x0a}, FeeRecipient: c16FeeRecipient(b), StateRoot: phase0.Root{0x01}, ReceiptsRoot: phase0.Root{0x02},
-		PrevRandao: [32]byte{0x03}, BlockNumber: 100, GasLimit: 30000000, GasUsed: 21000, Timestamp: 1700000000,
+		PrevRandao: [32]byte{0x03}, BlockNumber: b.blockNumber(), GasLimit: 30000000, GasUsed: 21000, Timestamp: 1700000000,
 		ExtraData: []byte{}, BaseFeePerGas: uint256.NewInt(7), BlockHash: phase0.Hash32{0xb1}, Transactions: []bellatrix.Transaction{},
 		Withdrawals: []*capella.Withdrawal{},
 	}
